@@ -602,6 +602,11 @@ class XformsUnit(Unit):
         h, w = z3.Ints('h w')
         ex = new_exec(dec, UTIL, assumptions=dims_pre(h, w))
         setup(ex)
+        ex.models['cv2'] = ChainCv2
+        try:
+            register_class(ex, UTIL, 'Util')      # a refactor may name the class inside its own methods
+        except Exception:
+            pass
         src = image(h, w, 1 if fmt == 'GRAY' else 3)
         frame = Obj('Frame', image=src, format=fmt, data=None)
         tx = adict(topic='main', frame=frame, xforms=[adict(action=action)])
@@ -621,10 +626,9 @@ class XformsUnit(Unit):
         if action in EXPECT:
             prim, code = EXPECT[action]
             kind = 'flip' if prim == 'flip' else 'rot'
-            ex.oblige(f'C17.{kind}: {action} is exactly one call of cv2.{prim} with the documented code on the frame image',
-                      len(calls) == 1 and calls[0][0] == prim and calls[0][1] is src and calls[0][2] == code)
-            ex.oblige(f'C17.{kind}: {action} result pixels are that permutation of the source pixels',
-                      img.f['pix'] == (cv_flip if prim == 'flip' else cv_rot)(src.f['pix'], z3.IntVal(code)))
+            # stated over the index maps of the primitives (D4 normal form, see ChainUnit), not over WHICH cv2 calls are made: flipboth done as a half turn is the same permutation
+            ex.oblige(f'C17.{kind}: {action} result pixels are exactly the documented permutation (cv2.{prim} code {code}) of the source pixels',
+                      img.f.get('root', img) is src and img.f.get('d4', D4_ID) == d4_apply(D4_ID, prim, code))
             if prim == 'flip':
                 ex.oblige('C17.flip: size kept', z3.And(zi(img.f['h']) == h, zi(img.f['w']) == w))
             else:
@@ -820,3 +824,139 @@ class InvolutionLemmas(LemmaUnit):
 
 
 UNITS.append(InvolutionLemmas('C17.involution lemmas (index maps of cv2.flip / cv2.rotate with the proved action codes)', involution_lemmas))
+
+
+# ================================================================================================== chains of flips / rotations: exact composition
+# Every image produced by cv2.flip / cv2.rotate carries the index map back to the image the chain started from: out(i, j) = root(mi(i, j), mj(i, j)), each of mi, mj a
+# form ci*i + cj*j + ch*(H-1) + cw*(W-1) over the root's height H and width W (an element of the dihedral group of the rectangle, kept in normal form by concrete
+# arithmetic - no solver needed).  ASSUMED per primitive (the same index maps as the involution lemmas, cross-checked against the real cv2 on every run):
+#   flip 1: (i, w-1-j)   flip 0: (h-1-i, j)   flip -1: (h-1-i, w-1-j)   rotate CW: (h-1-j, i)   rotate CCW: (j, w-1-i)   rotate 180: (h-1-i, w-1-j)
+D4_ID = (((1, 0, 0, 0), (0, 1, 0, 0)), False)
+
+
+def _d4_subst(form, new_i, new_j):
+    """form(i := new_i, j := new_j), all linear forms (ci, cj, ch, cw)"""
+    ci, cj, ch, cw = form
+    return tuple(ci * a + cj * b + c for a, b, c in zip(new_i, new_j, (0, 0, ch, cw)))
+
+
+def d4_apply(d4, prim, code):
+    (mi, mj), swapped = d4
+    hm1 = (0, 0, 0, 1) if swapped else (0, 0, 1, 0)       # (h-1) of the CURRENT image in terms of the root's H-1 / W-1
+    wm1 = (0, 0, 1, 0) if swapped else (0, 0, 0, 1)
+    I, J = (1, 0, 0, 0), (0, 1, 0, 0)
+    neg = lambda f: tuple(-x for x in f)
+    add = lambda f, g: tuple(x + y for x, y in zip(f, g))
+    if prim == 'flip':
+        ni = add(hm1, neg(I)) if code in (0, -1) else I
+        nj = add(wm1, neg(J)) if code in (1, -1) else J
+        sw = swapped
+    elif code == CV['ROTATE_90_CLOCKWISE']:
+        ni, nj, sw = add(hm1, neg(J)), I, not swapped
+    elif code == CV['ROTATE_90_COUNTERCLOCKWISE']:
+        ni, nj, sw = J, add(wm1, neg(I)), not swapped
+    else:
+        ni, nj, sw = add(hm1, neg(I)), add(wm1, neg(J)), swapped
+    return ((_d4_subst(mi, ni, nj), _d4_subst(mj, ni, nj)), sw)
+
+
+class ChainCv2(Cv2Model):
+    @staticmethod
+    def _track(img, out, prim, code):
+        if not isinstance(code, int):
+            raise Unsupported('flip / rotate with a symbolic code')
+        out.f['d4'] = d4_apply(img.f.get('d4', D4_ID), prim, code)
+        out.f['root'] = img.f.get('root', img)
+        return out
+
+    @staticmethod
+    def m_flip(ex, o, img, code):
+        return ChainCv2._track(img, Cv2Model.m_flip(ex, o, img, code), 'flip', code)
+
+    @staticmethod
+    def m_rotate(ex, o, img, code):
+        return ChainCv2._track(img, Cv2Model.m_rotate(ex, o, img, code), 'rotate', code)
+
+
+def replay_chain(failure):
+    """native: every chain of up to 3 flips / rotations through the real Util.execute_xforms on a small asymmetric image, against the step-by-step composition of the cv2 primitives"""
+    import itertools, logging
+    import numpy as np
+    import cv2
+    logging.disable(logging.CRITICAL)
+    from openfilter.filter_runtime.filters.util import Util
+    from openfilter.filter_runtime import Frame
+    from openfilter.filter_runtime.utils import adict as real_adict
+    prim = {'flipx': lambda a: cv2.flip(a, 1), 'flipy': lambda a: cv2.flip(a, 0), 'flipboth': lambda a: cv2.flip(a, -1),
+            'rotcw': lambda a: cv2.rotate(a, cv2.ROTATE_90_CLOCKWISE), 'rotccw': lambda a: cv2.rotate(a, cv2.ROTATE_90_COUNTERCLOCKWISE)}
+    img = np.arange(2 * 3 * 3, dtype=np.uint8).reshape(2, 3, 3)
+    me = Util.__new__(Util)
+    obs = []
+    for n in (1, 2, 3):
+        for chain in itertools.product(prim, repeat=n):
+            tx = real_adict(topic='main', frame=Frame(img.copy(), {}, 'BGR'), xforms=[real_adict(action=a) for a in chain])
+            got = Util.execute_xforms(me, tx).frame.image
+            want = img
+            for a in chain:
+                want = prim[a](want)
+            if got.shape != want.shape or not (got == want).all():
+                obs.append(f'chain {", ".join(chain)}: the result is not the composition of its steps (shape {got.shape} vs {want.shape})')
+    return {'confirmed': bool(obs), 'inputs': 'all 155 chains of 1..3 flips / rotations on a 2x3 image', 'observed': obs[:5] or 'every chain is the composition of its steps'}
+
+
+class ChainUnit(Unit):
+    """the real Util.execute_xforms on chains of 2 and 3 flips / rotations: the result is EXACTLY the composition of the documented steps, in order - same pixel
+    permutation of the image the chain started from, same size - however the implementation groups or reorders the cv2 calls"""
+    name = 'Util.execute_xforms (chains of flips / rotations)'
+    targets = (f'{UTIL}::Util.execute_xforms',)
+    required_covers = ('chain applied',)
+    mutants = (('flipx uses the flipy code', f'{UTIL}::Util.execute_xforms', "frame = Frame(cv2.flip(frame.image, 1), frame)", "frame = Frame(cv2.flip(frame.image, 0), frame)", 'C17.chain'),)
+
+    def shapes(self, tier):
+        import itertools
+        acts = list(EXPECT)
+        out = [c for n in (2, 3) for c in itertools.product(acts, repeat=n)]
+        return out + [('rotcw', 'fmtgray', 'flipx'), ('flipx', 'swaprgb', 'rotccw')]
+
+    def run(self, shape, dec):
+        h, w = z3.Ints('h w')
+        ex = new_exec(dec, UTIL, assumptions=dims_pre(h, w))
+        setup(ex)
+        ex.models['cv2'] = ChainCv2
+        try:
+            register_class(ex, UTIL, 'Util')      # a refactor may name the class inside its own methods (class-level tables, static helpers)
+        except Exception:
+            pass
+        src = image(h, w, 3)
+        frame = Obj('Frame', image=src, format='BGR', data=None)
+        tx = adict(topic='main', frame=frame, xforms=[adict(action=a) for a in shape])
+        ex.model_vars = dict(h=h, w=w)
+        ex.replay_info = dict(chain=list(shape))
+        try:
+            ex.call_closure(closure(UTIL, 'Util.execute_xforms'), [util_object(ex), tx], {})
+        except ExcSig as e:
+            ex.outcome = 'raise'
+            ex.oblige(f'C17.no_failure: a chain of documented actions does not raise ({e.cls}: {e.origin})', False)
+            return ex
+        ex.outcome = 'return'
+        ex.cover('chain applied')
+        img = tx.f['kv']['frame'].f['image']
+        want = D4_ID
+        for a in shape:
+            if a in EXPECT:
+                want = d4_apply(want, *EXPECT[a])
+        # colour conversions in between produce a new root: follow it (they keep the geometry; their pixels are the Frame / cvtColor contract)
+        got, root = img.f.get('d4', D4_ID), img.f.get('root', img)
+        if all(a in EXPECT for a in shape):
+            ex.oblige('C17.chain: the result is a permutation of the pixels of the image the chain started from', root is src)
+            ex.oblige('C17.chain: a chain of flips / rotations yields exactly the composition of its steps, in order (same pixel permutation)', got == want)
+        (_, _), swapped = want
+        ex.oblige('C17.chain: the size is that of the composition (height and width swapped once per quarter turn)',
+                  z3.And(zi(img.f['h']) == (w if swapped else h), zi(img.f['w']) == (h if swapped else w)))
+        return ex
+
+    def replay(self, failure):
+        return replay_chain(failure)
+
+
+UNITS.append(ChainUnit())
